@@ -5,8 +5,12 @@ import (
 	"errors"
 	"fmt"
 	"net"
+	"os"
+	"os/exec"
 	"reflect"
+	"runtime/debug"
 	"strconv"
+	"strings"
 	"testing"
 	"time"
 
@@ -210,4 +214,106 @@ func TestC09_GoValues(t *testing.T) {
 		}
 	}
 	t.Logf("cases: %d", n)
+}
+
+// TestC09_Cyclic: data that contains itself - a map holding itself, a slice holding itself in an
+// interface slot, two maps holding each other, a struct reached through its own pointer field, a
+// map whose value is a pointer to the map. Selectors are finite, so evaluation terminates whatever
+// the operator; an operator that cannot handle the value returns an error (with false). A stack
+// overflow cannot be recovered, so every specimen is evaluated in a child process with a capped
+// stack; the child reports per expression, the parent reads a crash as the violation.
+type c09Node struct {
+	Name string
+	Next *c09Node
+	Any  interface{}
+}
+
+func c09CyclicData() map[string]interface{} {
+	self := map[string]interface{}{"name": "m"}
+	self["self"] = self
+	lst := []interface{}{"a", nil}
+	lst[1] = lst
+	a, b := map[string]interface{}{"n": "a"}, map[string]interface{}{"n": "b"}
+	a["other"], b["other"] = b, a
+	ring := &c09Node{Name: "r"}
+	ring.Next = ring
+	ring.Any = ring
+	pm := map[string]interface{}{"k": "v"}
+	pm["p"] = &pm
+	return map[string]interface{}{"self-map": self, "self-slice": map[string]interface{}{"l": lst}, "mutual": a, "ring": ring, "ptr-to-self": pm}
+}
+
+var c09CyclicExprs = []string{
+	`self matches "a"`, `self not matches "a"`, `self is empty`, `self is not empty`, `self == "a"`, `"name" in self`, `self.self.self.name == "m"`, `any self as k, v { v == "m" }`, `all self as k { k != "zz" }`,
+	`l matches "a"`, `l is empty`, `"a" in l`, `l.1.1.0 == "a"`, `any l as x { x == "a" }`, `all l as i, x { x is not empty }`, `l.1 matches "a"`,
+	`other.other.n == "a"`, `other matches "a"`, `other is empty`, `"n" in other`, `any other as k, v { v matches "b" }`,
+	`Next.Next.Name == "r"`, `Next matches "r"`, `Any is empty`, `Any.Any.Name != "r"`, `"r" in Next`, `Next == "r"`,
+	`p.p.k == "v"`, `p matches "v"`, `p is not empty`, `"k" in p`, `any p as k, v { k == "k" }`,
+}
+
+// TestC09_CyclicChild is the child side; it does nothing unless VERIF_CYCLIC_CHILD names a specimen.
+func TestC09_CyclicChild(t *testing.T) {
+	name := os.Getenv("VERIF_CYCLIC_CHILD")
+	if name == "" {
+		t.Skip("child of TestC09_Cyclic only")
+	}
+	debug.SetMaxStack(64 << 20)
+	d := c09CyclicData()[name]
+	for _, tx := range c09CyclicExprs {
+		for _, unk := range []bool{false, true} {
+			var opts []bexpr.Option
+			if unk {
+				opts = append(opts, bexpr.WithUnknownValue("u"))
+			}
+			ev, err := bexpr.CreateEvaluator(tx, opts...)
+			if err != nil {
+				fmt.Printf("CYCLIC-HARNESS %q rejected: %v\n", tx, err)
+				continue
+			}
+			fmt.Printf("CYCLIC-BEGIN %q\n", tx)
+			res, eerr, pan := safeEvaluate(ev, d)
+			switch {
+			case pan != nil:
+				fmt.Printf("CYCLIC-PANIC %q: %v\n", tx, pan)
+			case eerr != nil && res:
+				fmt.Printf("CYCLIC-TRUE-WITH-ERROR %q: %v\n", tx, eerr)
+			}
+			if f, ferr := bexpr.CreateFilter(tx); ferr == nil && !unk {
+				if _, _, xpan := safeExecute(f, []interface{}{d}); xpan != nil {
+					fmt.Printf("CYCLIC-PANIC filter %q: %v\n", tx, xpan)
+				}
+			}
+		}
+	}
+	fmt.Println("CYCLIC-DONE")
+}
+
+func TestC09_Cyclic(t *testing.T) {
+	r := rec(t, "C09", c09Rule+"; TestC09_Cyclic: 5 self-referential data (map in itself, slice in itself, mutual maps, pointer ring, pointer to own map) x 32 expressions x unknown-value option, each specimen in a child process with a 64 MB stack cap; a crash of the child counts as the violation")
+	r.Exhaustive = true
+	r.ExhaustiveOf = "cyclic specimen x expression x unknown-value option"
+	for name := range c09CyclicData() {
+		cmd := exec.Command(os.Args[0], "-test.run=^TestC09_CyclicChild$", "-test.count=1")
+		cmd.Env = append(os.Environ(), "VERIF_CYCLIC_CHILD="+name, "VERIF_STATS_DIR=", "VERIF_REPLAY=")
+		out, err := cmd.CombinedOutput()
+		s := string(out)
+		c := map[string]string{"specimen": name}
+		last := ""
+		for _, line := range strings.Split(s, "\n") {
+			if strings.HasPrefix(line, "CYCLIC-BEGIN ") {
+				last = strings.TrimPrefix(line, "CYCLIC-BEGIN ")
+			}
+			if strings.HasPrefix(line, "CYCLIC-PANIC") || strings.HasPrefix(line, "CYCLIC-TRUE-WITH-ERROR") {
+				violation(t, "C09", "TestC09_Cyclic", c, "on the self-referential datum %q: %s", name, line)
+			}
+		}
+		if !strings.Contains(s, "CYCLIC-DONE") {
+			if strings.Contains(s, "stack overflow") || strings.Contains(s, "fatal error") || strings.Contains(s, "goroutine stack exceeds") {
+				violation(t, "C09", "TestC09_Cyclic", c, "evaluating %s on the self-referential datum %q killed the process (%v):\n%s", last, name, err, clip(s, 1200))
+			}
+			t.Fatalf("harness: cyclic child for %q did not finish (%v): %s", name, err, clip(s, 800))
+		}
+		r.Case(name, true, map[string]interface{}{"specimen": name, "expressions": len(c09CyclicExprs) * 2}, "specimen:"+name)
+		r.Case(name+"/2", true, nil)
+	}
 }
